@@ -14,7 +14,7 @@ sys.path.insert(0, os.path.dirname(os.path.abspath(__file__)))
 import ais  # noqa: E402
 import codec_common as cc  # noqa: E402
 
-GEN = ['GenTables.v', 'GenDispatch.v', 'GenConv.v', 'GenEnums.v', 'GenAlpha.v']
+GEN = ['GenTables.v', 'GenDispatch.v', 'GenConv.v', 'GenEnums.v', 'GenAlpha.v', 'GenConst.v']
 RULE = ('ais_to_nmea_0183 on PRNG-drawn armored payloads of EVERY length 0..200 and of the boundary lengths 59/60/61/119/120/'
         '121/178/179/180/181/239/240/241/479/480/481/539/540 (x both talkers x both channels x fill 0..5), payloads searched so '
         'that a sentence checksum is below 0x10, lengths beyond 540, malformed talker/channel/payload/fill arguments; '
